@@ -39,6 +39,14 @@ Theorem C10_meaning_order_independent ds ds' acts r l n :
   elab ds = Ok r → closed_b r l = true → n ∈ l →
   ∃ r', elab ds' = Ok r' ∧ meaning r n = meaning r' n.
 Proof. exact (meaning_order_independent ds ds' acts r l n). Qed.
+(** the same for dimensionalities, of units and of DIMENSION names: a derived dimension is looked up in
+    [r_dims] every time it is met, so a line may use a derived dimension that is only defined further down
+    ([[pressure] = [force] / [area]] before [[area] = [length] ** 2]) *)
+Theorem C10_dimensionality_order_independent ds ds' acts r l (a : uc) :
+  forallb plain ds = true → ds ≡ₚ ds' → mapR pre ds = Ok acts → no_redefinition acts →
+  elab ds = Ok r → closed_b r l = true → (∀ k, is_Some (a !! k) → k ∈ l) →
+  ∃ r', elab ds' = Ok r' ∧ dim_of r a = dim_of r' a.
+Proof. exact (dimensionality_order_independent ds ds' acts r l a). Qed.
 (** a list that is rejected is rejected in every order (possibly for another of its faults) *)
 Theorem C10_rejected_in_every_order ds ds' e :
   forallb plain ds = true → ds ≡ₚ ds' → elab ds = Err e → ∃ e', elab ds' = Err e'.
@@ -117,6 +125,23 @@ Example C10_order_nonvacuous :
     ∧ meaning r "kilowatt_hour" = meaning r' "kilowatt_hour" ∧ res_is_ok (meaning r "kilowatt_hour") = true
     ∧ length (close_refs 8 r dflt_names) = 33%nat.
 Proof. exact default_order_example. Qed.
+
+(** a chain of derived dimensions written bottom-up (every line uses a dimension defined further down) and
+    top-down: the same expansion to base dimensions, the one the lines spell out *)
+Example C10_dimension_chain_nonvacuous :
+  let lines := ["[viscosity] = [pressure] * [time]"; "[pressure] = [force] / [area]"; "[area] = [length] ** 2";
+                "[force] = [mass] * [acceleration]"; "[acceleration] = [velocity] / [time]";
+                "[velocity] = [length] / [time]"; "meter = [length]"; "second = [time]"; "gram = [mass]"] in
+  let want := mkuc [("[length]", mkq (-1) 1); ("[mass]", mkq 1 1); ("[time]", mkq (-1) 1)] in
+  match elab_lines pint_quirks lines, elab_lines pint_quirks (rev lines) with
+  | Ok r, Ok r' =>
+      match dim_of r {[ "[viscosity]" := 1%Qc ]}, dim_of r' {[ "[viscosity]" := 1%Qc ]} with
+      | Ok d, Ok d' => uc_eqb d want && uc_eqb d' want && closed_b r (close_refs 8 r ["[viscosity]"]) = true
+      | _, _ => False
+      end
+  | _, _ => False
+  end.
+Proof. vm_compute. reflexivity. Qed.
 
 (** faults on the default registry: refused at load, or no meaning at first use *)
 Example C10_faults_nonvacuous :
